@@ -703,6 +703,11 @@ class CallMixin(StmtMixin):
 
     # ---------------------------------------------------------------- builtins
     def call_external(self, st: State, name: str, args: list, kwargs: dict, node: Any, ctx: Ctx) -> Res:
+        if name.startswith(("logging.", "warnings.")) or name == "builtins.print":
+            # diagnostics: assumed to have no effect on the program state (recorded in the evidence)
+            self.used_models.add("A-DIAG logging/warnings/print calls have no effect on program state")
+            yield st, (ExtVal("logging.Logger") if name == "logging.getLogger" else None)
+            return
         model = self.reg.models.get("ext:" + name)
         if model is not None:
             self.used_models.add(name)
